@@ -293,6 +293,7 @@ impl Prop for C14 {
                         if crlf && !tags.iter().any(|t| t.1.as_deref().map(|c| c.contains('\n')).unwrap_or(false)) {
                             continue;
                         }
+                        crate::wctx::beat();
                         for line in &ls {
                             idx += 1;
                             let s = Scenario { tags: tags.clone(), line: line.clone(), crlf };
